@@ -970,3 +970,50 @@ func (g *Gen) Lines(c *CfgGen, n int, nums map[string]*NumTok) []ItemGen {
 	items = append(items, ItemGen{Kind: "final"})
 	return items
 }
+
+// linePrefixes: what a spotlight line may well begin with - punctuation, and
+// prefixes that look like a shell's execution trace.  The line is the actor's
+// all the same.
+var linePrefixes = []string{"+", "++", "+++", "#", ">", "$", "-", "=", "*", "+x", "++x", "%", ":", "!", "[1]+"}
+
+// PrefixLines generates lines `<prefix> p=<number> q=<word>` (either field
+// may be missing) for the signals with keys p and q that writeE2E adds to
+// every role.
+func (g *Gen) PrefixLines(actors []string, nums map[string]*NumTok, n int) []ItemGen {
+	var items []ItemGen
+	for i := 0; i < n; i++ {
+		l := &LineGen{Actor: g.pick(actors), TsKind: "none"}
+		l.Body = []string{linePrefixes[(i+g.R.Intn(3))%len(linePrefixes)]}
+		if i%4 == 1 {
+			l.Body[0] = "+" // the most trace-like one, often
+		}
+		if i%4 == 3 {
+			l.Body[0] = "++"
+		}
+		switch g.R.Intn(3) {
+		case 0:
+			l.Body = append(l.Body, "q="+g.pick(evTexts))
+		case 1:
+			nt := g.renderNum(int64(g.R.Intn(80)))
+			if old, ok := nums[nt.S]; ok {
+				nt = *old
+			} else {
+				cp := nt
+				nums[nt.S] = &cp
+			}
+			l.Body = append(l.Body, "p="+nt.S)
+		default:
+			nt := g.renderNum(int64(g.R.Intn(80)))
+			if old, ok := nums[nt.S]; ok {
+				nt = *old
+			} else {
+				cp := nt
+				nums[nt.S] = &cp
+			}
+			l.Body = append(l.Body, "q="+g.pick(evTexts), "p="+nt.S)
+		}
+		l.Text = strings.Join(l.tokens(), " ")
+		items = append(items, ItemGen{Kind: "line", Line: l})
+	}
+	return items
+}
